@@ -531,18 +531,21 @@ theorem StoreSteps.cond {c : FsState → Bool} {p q : Prog} (hp : StoreSteps p) 
 /-- configuration is never touched -/
 def Frame (p : Prog) : Prop :=
   ∀ s, (p s).1.klen = s.klen ∧ (p s).1.limit = s.limit ∧
-    (p s).1.explicitFsyncUnconditional = s.explicitFsyncUnconditional
+    (p s).1.explicitFsyncUnconditional = s.explicitFsyncUnconditional ∧
+    (p s).1.restoreSyncsOverLimit = s.restoreSyncsOverLimit
 
-theorem Frame.skip : Frame skip := fun _ => ⟨rfl, rfl, rfl⟩
-theorem Frame.acts (f : FsState → List Act) : Frame (acts f) := fun _ => ⟨rfl, rfl, rfl⟩
+theorem Frame.skip : Frame skip := fun _ => ⟨rfl, rfl, rfl, rfl⟩
+theorem Frame.acts (f : FsState → List Act) : Frame (acts f) := fun _ => ⟨rfl, rfl, rfl, rfl⟩
 theorem Frame.modify {g : FsState → FsState}
     (h : ∀ s, (g s).klen = s.klen ∧ (g s).limit = s.limit ∧
-      (g s).explicitFsyncUnconditional = s.explicitFsyncUnconditional) : Frame (modify g) := fun s => h s
+      (g s).explicitFsyncUnconditional = s.explicitFsyncUnconditional ∧
+      (g s).restoreSyncsOverLimit = s.restoreSyncsOverLimit) : Frame (modify g) := fun s => h s
 theorem Frame.seq {p q : Prog} (hp : Frame p) (hq : Frame q) : Frame (p ⨾ q) := by
   intro s
-  obtain ⟨a1, a2, a3⟩ := hp s
-  obtain ⟨b1, b2, b3⟩ := hq (p s).1
-  exact ⟨by simp only [Fs.seq]; rw [b1, a1], by simp only [Fs.seq]; rw [b2, a2], by simp only [Fs.seq]; rw [b3, a3]⟩
+  obtain ⟨a1, a2, a3, a4⟩ := hp s
+  obtain ⟨b1, b2, b3, b4⟩ := hq (p s).1
+  exact ⟨by simp only [Fs.seq]; rw [b1, a1], by simp only [Fs.seq]; rw [b2, a2], by simp only [Fs.seq]; rw [b3, a3],
+    by simp only [Fs.seq]; rw [b4, a4]⟩
 theorem Frame.cond {c : FsState → Bool} {p q : Prog} (hp : Frame p) (hq : Frame q) : Frame (cond c p q) := by
   intro s; simp only [Fs.cond]; split
   · exact hp s
@@ -553,8 +556,16 @@ macro "unfold_progs" : tactic =>
       fsyncP, closeP, openP, rotateP, dumpPassP, fsyncCheckP, ensureActiveP, newBlobP, noteDeferredP, applyP,
       modStore])
 
+theorem realizable_restoreActiveP : Realizable restoreActiveP :=
+  Realizable.cond
+    (Realizable.seq (Realizable.modify _) (Realizable.cond (Realizable.acts _) Realizable.skip))
+    Realizable.skip
+
 theorem realizable_prog (op : FsOp) : Realizable (prog op) := by
-  cases op <;> unfold_progs <;>
+  cases op
+  case restoreActive => exact realizable_restoreActiveP
+  all_goals unfold_progs
+  all_goals
     repeat (first
       | exact Realizable.skip | exact Realizable.acts _ | exact Realizable.modify _
       | apply Realizable.cond | apply Realizable.seq | split)
@@ -565,9 +576,17 @@ theorem realizable_openP (lazy : Bool) : Realizable (openP lazy) := by
     | exact Realizable.skip | exact Realizable.acts _ | exact Realizable.modify _
     | apply Realizable.cond | apply Realizable.seq)
 
+theorem storeSteps_restoreActiveP : StoreSteps restoreActiveP :=
+  StoreSteps.cond
+    (StoreSteps.seq (StoreSteps.applyP _) (StoreSteps.cond (StoreSteps.acts _) StoreSteps.skip))
+    StoreSteps.skip
+
 theorem storeSteps_prog (op : FsOp) : StoreSteps (prog op) := by
-  cases op <;> simp only [prog, writeP, deleteP, closeActiveP, createActiveP, restoreActiveP, forceP, settleP,
-      fsyncP, closeP, openP, rotateP, dumpPassP, fsyncCheckP, ensureActiveP, newBlobP, noteDeferredP] <;>
+  cases op
+  case restoreActive => exact storeSteps_restoreActiveP
+  all_goals simp only [prog, writeP, deleteP, closeActiveP, createActiveP, forceP, settleP,
+      fsyncP, closeP, openP, rotateP, dumpPassP, fsyncCheckP, ensureActiveP, newBlobP, noteDeferredP]
+  all_goals
     repeat (first
       | exact StoreSteps.skip | exact StoreSteps.acts _ | exact StoreSteps.applyP _
       | exact StoreSteps.modify (fun _ => rfl) | apply StoreSteps.cond | apply StoreSteps.seq | split)
@@ -578,16 +597,24 @@ theorem storeSteps_openP (lazy : Bool) : StoreSteps (openP lazy) := by
     | exact StoreSteps.acts _ | exact StoreSteps.applyP _
     | exact StoreSteps.modify (fun _ => rfl) | apply StoreSteps.seq)
 
+theorem frame_restoreActiveP : Frame restoreActiveP :=
+  Frame.cond
+    (Frame.seq (Frame.modify (fun _ => ⟨rfl, rfl, rfl, rfl⟩)) (Frame.cond (Frame.acts _) Frame.skip))
+    Frame.skip
+
 theorem frame_prog (op : FsOp) : Frame (prog op) := by
-  cases op <;> unfold_progs <;>
+  cases op
+  case restoreActive => exact frame_restoreActiveP
+  all_goals unfold_progs
+  all_goals
     repeat (first
       | exact Frame.skip | exact Frame.acts _
-      | exact Frame.modify (fun _ => ⟨rfl, rfl, rfl⟩) | apply Frame.cond | apply Frame.seq | split)
+      | exact Frame.modify (fun _ => ⟨rfl, rfl, rfl, rfl⟩) | apply Frame.cond | apply Frame.seq | split)
 
 theorem frame_openP (lazy : Bool) : Frame (openP lazy) := by
   unfold_progs
   repeat (first
-    | exact Frame.acts _ | exact Frame.modify (fun _ => ⟨rfl, rfl, rfl⟩) | apply Frame.seq)
+    | exact Frame.acts _ | exact Frame.modify (fun _ => ⟨rfl, rfl, rfl, rfl⟩) | apply Frame.seq)
 
 theorem emit_realizable (s : FsState) (op : FsOp) :
     ∃ as, (emit s op).1.disk = (s.disk.runActs as).1 ∧ (emit s op).2 = (s.disk.runActs as).2 := by
@@ -608,13 +635,14 @@ theorem emit_storeSteps (s : FsState) (op : FsOp) : ∃ ops, (emit s op).1.store
 
 theorem emit_frame (s : FsState) (op : FsOp) :
     (emit s op).1.klen = s.klen ∧ (emit s op).1.limit = s.limit ∧
-      (emit s op).1.explicitFsyncUnconditional = s.explicitFsyncUnconditional := by
+      (emit s op).1.explicitFsyncUnconditional = s.explicitFsyncUnconditional ∧
+      (emit s op).1.restoreSyncsOverLimit = s.restoreSyncsOverLimit := by
   unfold emit
   split
   · exact frame_prog op s
   · split
     · exact frame_openP _ s
-    · exact ⟨rfl, rfl, rfl⟩
+    · exact ⟨rfl, rfl, rfl, rfl⟩
 
 /-! ### runs -/
 
@@ -642,29 +670,29 @@ theorem runFrom_keeps {I : FsState → List Event → Prop}
     rw [runFrom_cons]
     exact runFrom_keeps hstep ops _ (hstep _ _ op h)
 
-theorem init_store (dup : Bool) (limit klen : Nat) (unc : Bool) :
-    (init dup limit klen unc).1.store = Store.init dup := rfl
+theorem init_store (dup : Bool) (limit klen : Nat) (unc rs : Bool) :
+    (init dup limit klen unc rs).1.store = Store.init dup := rfl
 
-theorem init_disk_trace (dup : Bool) (limit klen : Nat) (unc : Bool) :
-    (init dup limit klen unc).1.disk = (({} : Disk).runActs [.createBlob 0]).1 ∧
-      (init dup limit klen unc).2 = (({} : Disk).runActs [.createBlob 0]).2 := ⟨rfl, by simp [init, newBlobP, seq, acts, applyP, modStore, modify]⟩
+theorem init_disk_trace (dup : Bool) (limit klen : Nat) (unc rs : Bool) :
+    (init dup limit klen unc rs).1.disk = (({} : Disk).runActs [.createBlob 0]).1 ∧
+      (init dup limit klen unc rs).2 = (({} : Disk).runActs [.createBlob 0]).2 := ⟨rfl, by simp [init, newBlobP, seq, acts, applyP, modStore, modify]⟩
 
 /-- the disk-level invariants hold on every run -/
-theorem run_diskInv (dup : Bool) (limit klen : Nat) (unc : Bool) (ops : List FsOp) :
-    DiskInv (run dup limit klen unc ops).1.disk (run dup limit klen unc ops).2 := by
+theorem run_diskInv (dup : Bool) (limit klen : Nat) (unc rs : Bool) (ops : List FsOp) :
+    DiskInv (run dup limit klen unc rs ops).1.disk (run dup limit klen unc rs ops).2 := by
   unfold run
   refine runFrom_keeps (I := fun s t => DiskInv s.disk t) ?_ ops _ ?_
   · intro s t op h
     obtain ⟨as, h1, h2⟩ := emit_realizable s op
     rw [h1, h2]
     exact h.runActs as
-  · obtain ⟨h1, h2⟩ := init_disk_trace dup limit klen unc
+  · obtain ⟨h1, h2⟩ := init_disk_trace dup limit klen unc rs
     rw [h1, h2]
     simpa using DiskInv.init.runActs [.createBlob 0]
 
 /-- the store of every run is a run of the L2 model -/
-theorem run_store (dup : Bool) (limit klen : Nat) (unc : Bool) (ops : List FsOp) :
-    ∃ sops, (run dup limit klen unc ops).1.store = (Store.init dup).run sops := by
+theorem run_store (dup : Bool) (limit klen : Nat) (unc rs : Bool) (ops : List FsOp) :
+    ∃ sops, (run dup limit klen unc rs ops).1.store = (Store.init dup).run sops := by
   unfold run
   refine runFrom_keeps (I := fun s _ => ∃ sops, s.store = (Store.init dup).run sops) ?_ ops _ ?_
   · intro s t op ⟨sops, h⟩
@@ -672,20 +700,21 @@ theorem run_store (dup : Bool) (limit klen : Nat) (unc : Bool) (ops : List FsOp)
     exact ⟨sops ++ o2, by rw [h2, h, store_run_append]⟩
   · exact ⟨[], rfl⟩
 
-theorem run_WF' (dup : Bool) (limit klen : Nat) (unc : Bool) (ops : List FsOp) :
-    (run dup limit klen unc ops).1.store.WF := by
-  obtain ⟨sops, h⟩ := run_store dup limit klen unc ops
+theorem run_WF' (dup : Bool) (limit klen : Nat) (unc rs : Bool) (ops : List FsOp) :
+    (run dup limit klen unc rs ops).1.store.WF := by
+  obtain ⟨sops, h⟩ := run_store dup limit klen unc rs ops
   rw [h]; exact run_WF dup sops
 
-theorem run_config (dup : Bool) (limit klen : Nat) (unc : Bool) (ops : List FsOp) :
-    (run dup limit klen unc ops).1.klen = klen ∧ (run dup limit klen unc ops).1.limit = limit ∧
-      (run dup limit klen unc ops).1.explicitFsyncUnconditional = unc := by
+theorem run_config (dup : Bool) (limit klen : Nat) (unc rs : Bool) (ops : List FsOp) :
+    (run dup limit klen unc rs ops).1.klen = klen ∧ (run dup limit klen unc rs ops).1.limit = limit ∧
+      (run dup limit klen unc rs ops).1.explicitFsyncUnconditional = unc ∧
+      (run dup limit klen unc rs ops).1.restoreSyncsOverLimit = rs := by
   unfold run
-  refine runFrom_keeps (I := fun s _ => s.klen = klen ∧ s.limit = limit ∧ s.explicitFsyncUnconditional = unc)
-    ?_ ops _ ⟨rfl, rfl, rfl⟩
-  intro s t op ⟨h1, h2, h3⟩
-  obtain ⟨f1, f2, f3⟩ := emit_frame s op
-  exact ⟨f1.trans h1, f2.trans h2, f3.trans h3⟩
+  refine runFrom_keeps (I := fun s _ => s.klen = klen ∧ s.limit = limit ∧ s.explicitFsyncUnconditional = unc ∧
+    s.restoreSyncsOverLimit = rs) ?_ ops _ ⟨rfl, rfl, rfl, rfl⟩
+  intro s t op ⟨h1, h2, h3, h4⟩
+  obtain ⟨f1, f2, f3, f4⟩ := emit_frame s op
+  exact ⟨f1.trans h1, f2.trans h2, f3.trans h3, f4.trans h4⟩
 
 /-! ### content of blob files (L5) -/
 
@@ -998,8 +1027,18 @@ macro "sound_tac" : tactic =>
       | exact Sound.acts (by intro s; (repeat' split) <;> first | exact NoCreate.nil | exact NoCreate.singleton rfl)
       | apply Sound.cond | apply Sound.seq | split))
 
+theorem sound_restoreActiveP : Sound restoreActiveP :=
+  Sound.cond
+    (Sound.seq (Sound.applyP _) (Sound.cond
+      (Sound.acts (by intro s; (repeat' split) <;> first | exact NoCreate.nil | exact NoCreate.singleton rfl))
+      Sound.skip))
+    Sound.skip
+
 theorem sound_prog (op : FsOp) : Sound (prog op) := by
-  cases op <;> unfold_ops <;> sound_tac
+  cases op
+  case restoreActive => exact sound_restoreActiveP
+  all_goals unfold_ops
+  all_goals sound_tac
 
 theorem sound_openP (lazy : Bool) : Sound (openP lazy) := by
   unfold_ops; sound_tac
@@ -1012,15 +1051,15 @@ theorem emit_stepOK {s : FsState} (h : Coh s) (op : FsOp) : StepOK s (emit s op)
     · exact sound_openP _ s h
     · exact Sound.skip s h
 
-theorem init_eq (dup : Bool) (limit klen : Nat) (unc : Bool) :
-    init dup limit klen unc =
+theorem init_eq (dup : Bool) (limit klen : Nat) (unc rs : Bool) :
+    init dup limit klen unc rs =
       ({ store := Store.init dup,
          disk := ({} : Disk).setFile 0 { size := blobHeaderSize, synced := blobHeaderSize, appendMode := false },
-         limit := limit, klen := klen, explicitFsyncUnconditional := unc }, hdr3 0) := by
+         limit := limit, klen := klen, explicitFsyncUnconditional := unc, restoreSyncsOverLimit := rs }, hdr3 0) := by
   simp [init, newBlobP, Fs.seq, Fs.acts, Fs.applyP, modStore, Fs.modify, Disk.runActs, Disk.exec, hdr3]
   rfl
 
-theorem init_coh (dup : Bool) (limit klen : Nat) (unc : Bool) : Coh (init dup limit klen unc).1 := by
+theorem init_coh (dup : Bool) (limit klen : Nat) (unc rs : Bool) : Coh (init dup limit klen unc rs).1 := by
   rw [init_eq]
   refine ⟨init_WF dup, Store.init_blobs_ne_nil dup, ?_⟩
   intro id hid
@@ -1036,8 +1075,8 @@ structure RunInv (s : FsState) (t : List Event) : Prop where
   sorted : (createdIds t).Pairwise (· < ·)
   exist : ∀ id ∈ createdIds t, (s.disk.files id).isSome
 
-theorem run_inv (dup : Bool) (limit klen : Nat) (unc : Bool) (ops : List FsOp) :
-    RunInv (run dup limit klen unc ops).1 (run dup limit klen unc ops).2 := by
+theorem run_inv (dup : Bool) (limit klen : Nat) (unc rs : Bool) (ops : List FsOp) :
+    RunInv (run dup limit klen unc rs ops).1 (run dup limit klen unc rs ops).2 := by
   unfold run
   refine runFrom_keeps (I := RunInv) ?_ ops _ ?_
   · intro s t op h
@@ -1050,7 +1089,7 @@ theorem run_inv (dup : Bool) (limit klen : Nat) (unc : Bool) (ops : List FsOp) :
       rcases hid with hid | hid
       · exact hs.grow id (h.exist id hid)
       · exact (hs.created id hid).1
-  · refine ⟨init_coh dup limit klen unc, ?_, ?_⟩
+  · refine ⟨init_coh dup limit klen unc rs, ?_, ?_⟩
     · rw [init_eq]; simp [createdIds_hdr3]
     · intro id hid
       rw [init_eq] at hid ⊢
@@ -1331,37 +1370,64 @@ theorem keepsB_prog (op : FsOp) (h : op.isRestore = false) : KeepsB (prog op) :=
   | «open» lazy => simp only [prog]; keeps_tac
   | query => simp only [prog]; keeps_tac
 
-theorem emit_bounded {s : FsState} (hc : Coh s) (hb : Bounded s) (op : FsOp) (h : op.isRestore = false) :
-    Bounded (emit s op).1 := by
+/-- since /repo 0ede233: the restored blob is synced when it is over the limit -/
+theorem bounded_restoreActiveP {s : FsState} (hc : Coh s) (hb : Bounded s)
+    (hrs : s.restoreSyncsOverLimit = true) : Bounded (restoreActiveP s).1 := by
+  simp only [restoreActiveP, Fs.cond]
+  split
+  · show Bounded ((cond (fun s => s.restoreSyncsOverLimit) fsyncCheckP skip) (applyP .restoreActive s).1).1
+    have hc1 := (Sound.applyP .restoreActive s hc).coh
+    have hflag : (applyP Op.restoreActive s).1.restoreSyncsOverLimit = true := hrs
+    simp only [Fs.cond, hflag, if_true]
+    exact EstB.fsyncCheckP _ hc1
+  · exact hb
+
+theorem emit_bounded {s : FsState} (hc : Coh s) (hb : Bounded s) (op : FsOp)
+    (h : op.isRestore = false ∨ s.restoreSyncsOverLimit = true) : Bounded (emit s op).1 := by
   unfold emit
   split
-  · exact keepsB_prog op h s hc hb
+  · by_cases hr : op.isRestore = false
+    · exact keepsB_prog op hr s hc hb
+    · have hrs : s.restoreSyncsOverLimit = true := by
+        rcases h with h | h
+        · exact absurd h hr
+        · exact h
+      cases op <;> simp [FsOp.isRestore] at hr
+      exact bounded_restoreActiveP hc hb hrs
   · split
     · exact EstB.openP _ s hc
     · exact hb
 
-theorem init_bounded (dup : Bool) (limit klen : Nat) (unc : Bool) : Bounded (init dup limit klen unc).1 := by
+theorem init_bounded (dup : Bool) (limit klen : Nat) (unc rs : Bool) : Bounded (init dup limit klen unc rs).1 := by
   rw [init_eq]
   intro a ha
   simp only [Store.init, Store.createActive, Option.some.injEq] at ha
   subst ha
   simp [FsState.dirtyOf, FileS.dirty]
 
-/-- without `restore_active` the active blob's dirty bytes stay within the limit at every quiescent state -/
-theorem run_bounded (dup : Bool) (limit klen : Nat) (unc : Bool) (ops : List FsOp)
-    (h : ∀ op ∈ ops, op.isRestore = false) : Bounded (run dup limit klen unc ops).1 := by
+/-- at every quiescent state the active blob's dirty bytes are within the limit, provided the restored
+    blob is synced when over the limit (`rs = true`, /repo since 0ede233) or `restore_active` is not used -/
+theorem run_bounded (dup : Bool) (limit klen : Nat) (unc rs : Bool) (ops : List FsOp)
+    (h : rs = true ∨ ∀ op ∈ ops, op.isRestore = false) : Bounded (run dup limit klen unc rs ops).1 := by
   unfold run
-  suffices hs : ∀ (ops : List FsOp) (st : FsState × List Event), (∀ op ∈ ops, op.isRestore = false) →
+  suffices hs : ∀ (ops : List FsOp) (st : FsState × List Event),
+      (rs = true ∨ ∀ op ∈ ops, op.isRestore = false) → st.1.restoreSyncsOverLimit = rs →
       RunInv st.1 st.2 → Bounded st.1 → Bounded (runFrom st ops).1 from
-    hs ops _ h (by have := run_inv dup limit klen unc []; simpa [run] using this) (init_bounded dup limit klen unc)
+    hs ops _ h rfl (by have := run_inv dup limit klen unc rs []; simpa [run] using this)
+      (init_bounded dup limit klen unc rs)
   intro ops
   induction ops with
-  | nil => intro st _ _ hb; exact hb
+  | nil => intro st _ _ _ hb; exact hb
   | cons op ops ih =>
-    intro st hno hinv hb
+    intro st hno hflag hinv hb
     rw [runFrom_cons]
     have hs := emit_stepOK hinv.coh op
-    refine ih _ (fun x hx => hno x (List.mem_cons_of_mem _ hx)) ?_ (emit_bounded hinv.coh hb op (hno op (by simp)))
+    have hop : op.isRestore = false ∨ st.1.restoreSyncsOverLimit = true := by
+      rcases hno with h | h
+      · exact Or.inr (hflag.trans h)
+      · exact Or.inl (h op (by simp))
+    refine ih _ (hno.imp id (fun h x hx => h x (List.mem_cons_of_mem _ hx)))
+      ((emit_frame st.1 op).2.2.2.trans hflag) ?_ (emit_bounded hinv.coh hb op hop)
     refine ⟨hs.coh, ?_, ?_⟩
     · rw [createdIds_append, List.pairwise_append]
       exact ⟨hinv.sorted, hs.sorted, fun a ha b hb => (hs.created b hb).2 a (hinv.exist a ha)⟩
@@ -1417,14 +1483,14 @@ theorem synced_eq_size_of_dirty_zero {d : Disk} (hc : CountersOK d) {id : Nat} (
 theorem emit_query (s : FsState) : emit s .query = (s, []) := by
   unfold emit; split <;> rfl
 
-theorem run_snoc (dup : Bool) (limit klen : Nat) (unc : Bool) (ops : List FsOp) (op : FsOp) :
-    run dup limit klen unc (ops ++ [op]) =
-      ((emit (run dup limit klen unc ops).1 op).1,
-        (run dup limit klen unc ops).2 ++ (emit (run dup limit klen unc ops).1 op).2) := by
+theorem run_snoc (dup : Bool) (limit klen : Nat) (unc rs : Bool) (ops : List FsOp) (op : FsOp) :
+    run dup limit klen unc rs (ops ++ [op]) =
+      ((emit (run dup limit klen unc rs ops).1 op).1,
+        (run dup limit klen unc rs ops).2 ++ (emit (run dup limit klen unc rs ops).1 op).2) := by
   unfold run; exact runFrom_snoc _ _ _
 
-theorem run_append (dup : Bool) (limit klen : Nat) (unc : Bool) (a b : List FsOp) :
-    run dup limit klen unc (a ++ b) = runFrom (run dup limit klen unc a) b := by
+theorem run_append (dup : Bool) (limit klen : Nat) (unc rs : Bool) (a b : List FsOp) :
+    run dup limit klen unc rs (a ++ b) = runFrom (run dup limit klen unc rs a) b := by
   unfold run; exact runFrom_append _ _ _
 
 /-! ## Part 4: every blob has its file, and the file is as long as the blob's content -/
@@ -1877,13 +1943,19 @@ theorem soundF_forceP (pred : BlobPred) : SoundF (forceP pred) :=
   SoundF.seq (SoundF.cond SoundF.newBlob_replace SoundF.skip) (Sound.cond Sound.newBlob_replace Sound.skip)
     SoundF.dumpPassP
 
+theorem soundF_restoreActiveP : SoundF restoreActiveP :=
+  SoundF.cond
+    (SoundF.seq (SoundF.applyP (fun st _ _ => history_restoreActive st)) (Sound.applyP _)
+      (SoundF.cond SoundF.fsyncCheckP SoundF.skip))
+    SoundF.skip
+
 theorem soundF_prog (op : FsOp) : SoundF (prog op) := by
   cases op with
   | write k ts m d rot => exact soundF_writeP k ts m d rot
   | delete k ts m oip => exact soundF_deleteP k ts m oip
   | closeActive => exact soundF_closeActiveP
   | createActive => exact SoundF.ensureActiveP
-  | restoreActive => exact SoundF.applyP (fun st _ _ => history_restoreActive st)
+  | restoreActive => exact soundF_restoreActiveP
   | force pred => exact soundF_forceP pred
   | free => exact SoundF.dumpPassP
   | settle => exact SoundF.cond SoundF.dumpPassP SoundF.skip
@@ -1901,7 +1973,7 @@ theorem emit_full {s : FsState} (hc : Coh s) (hf : Full s) (op : FsOp) : Full (e
     · exact soundF_openP _ s hc hf
     · exact hf
 
-theorem init_full (dup : Bool) (limit klen : Nat) (unc : Bool) : Full (init dup limit klen unc).1 := by
+theorem init_full (dup : Bool) (limit klen : Nat) (unc rs : Bool) : Full (init dup limit klen unc rs).1 := by
   rw [init_eq]
   intro p hp
   simp only [Store.history, Store.init, Store.createActive, Store.blobs, Store.closed, List.filterMap_nil,
@@ -1911,12 +1983,12 @@ theorem init_full (dup : Bool) (limit klen : Nat) (unc : Bool) : Full (init dup 
 
 /-- on every run: every blob of the store has its blob file, and the `size` counter of the file is the
     length of the blob's content -/
-theorem run_full (dup : Bool) (limit klen : Nat) (unc : Bool) (ops : List FsOp) :
-    Full (run dup limit klen unc ops).1 := by
+theorem run_full (dup : Bool) (limit klen : Nat) (unc rs : Bool) (ops : List FsOp) :
+    Full (run dup limit klen unc rs ops).1 := by
   unfold run
   have := runFrom_keeps (I := fun s _ => Coh s ∧ Full s)
     (fun s _ op h => ⟨(emit_stepOK h.1 op).coh, emit_full h.1 h.2 op⟩) ops
-    (init dup limit klen unc) ⟨init_coh dup limit klen unc, init_full dup limit klen unc⟩
+    (init dup limit klen unc rs) ⟨init_coh dup limit klen unc rs, init_full dup limit klen unc rs⟩
   exact this.2
 
 /-! ### the length of the L5 content -/
@@ -2241,13 +2313,19 @@ theorem enabling_deleteP (k : Key) (ts : Nat) (m : Option Meta) (oip : Bool) : E
     obtain ⟨hc1, hf1, hP⟩ := h1
     exact Enabling.fsyncCheckP _ (sound_deleteCoreP k ts m oip s1 hc1).coh (full_delete_core hc1 hf1 k ts m oip hP)
 
+theorem enabling_restoreActiveP : Enabling restoreActiveP :=
+  Enabling.cond
+    (Enabling.seq (Enabling.applyP _) (Sound.applyP _) (SoundF.applyP (fun st _ _ => history_restoreActive st))
+      (Enabling.cond Enabling.fsyncCheckP Enabling.skip))
+    Enabling.skip
+
 theorem enabling_prog (op : FsOp) : Enabling (prog op) := by
   cases op with
   | write k ts m d rot => exact enabling_writeP k ts m d rot
   | delete k ts m oip => exact enabling_deleteP k ts m oip
   | closeActive => exact enabling_closeActiveP
   | createActive => exact Enabling.ensureActiveP
-  | restoreActive => exact Enabling.applyP _
+  | restoreActive => exact enabling_restoreActiveP
   | force pred => exact enabling_forceP pred
   | free => exact Enabling.dumpPassP
   | settle => exact Enabling.cond Enabling.dumpPassP Enabling.skip
@@ -2269,10 +2347,10 @@ theorem emit_enabled {s : FsState} (hc : Coh s) (hf : Full s) (op : FsOp) :
     · exact enabling_openP _ s hc hf
     · exact ⟨[], rfl, rfl, trivial⟩
 
-theorem run_enabled (dup : Bool) (limit klen : Nat) (unc : Bool) (ops : List FsOp) (op : FsOp) :
-    ∃ as, (emit (run dup limit klen unc ops).1 op).1.disk = ((run dup limit klen unc ops).1.disk.runActs as).1 ∧
-      (emit (run dup limit klen unc ops).1 op).2 = ((run dup limit klen unc ops).1.disk.runActs as).2 ∧
-      AllEnabled (run dup limit klen unc ops).1.disk as :=
-  emit_enabled (run_inv dup limit klen unc ops).coh (run_full dup limit klen unc ops) op
+theorem run_enabled (dup : Bool) (limit klen : Nat) (unc rs : Bool) (ops : List FsOp) (op : FsOp) :
+    ∃ as, (emit (run dup limit klen unc rs ops).1 op).1.disk = ((run dup limit klen unc rs ops).1.disk.runActs as).1 ∧
+      (emit (run dup limit klen unc rs ops).1 op).2 = ((run dup limit klen unc rs ops).1.disk.runActs as).2 ∧
+      AllEnabled (run dup limit klen unc rs ops).1.disk as :=
+  emit_enabled (run_inv dup limit klen unc rs ops).coh (run_full dup limit klen unc rs ops) op
 
 end Pearl.Fs
